@@ -47,6 +47,13 @@ func CopyLogs(ctx context.Context, dst, src raft.LogStore, batchBytes int, progr
 		return fmt.Errorf("failed getting last index: %w", err)
 	}
 
+	if last == 0 {
+		// LogStores report an empty log as FirstIndex == LastIndex == 0. There is
+		// nothing to copy and index 0 is not a log we could read.
+		update("source log is empty, nothing to copy")
+		return nil
+	}
+
 	batch := make([]*raft.Log, 0, 4096)
 	batchSize := 0
 	n := 0
